@@ -1081,6 +1081,26 @@ func ruleDupComplete(c *Ctx) []Obligation {
 				}
 				narrowed = c.InstrPos(g.If)
 			}
+			// … and once the original's field is known to be non-nil, no later test may lead round the
+			// re-allocation (`if e.F != nil && (…)` compiles to branches that join before the store, which no
+			// dominating guard shows): from the non-nil branch every way out of the function passes the store
+			for _, g := range guardsAt(s.Block()) {
+				x, isEq, okn := nilTest(g.Cond)
+				_, gf, _ := loadedField(x)
+				if !okn || gf != f || isEq == g.Branch {
+					continue
+				}
+				from := g.If.Block().Succs[0]
+				if isEq {
+					from = g.If.Block().Succs[1]
+				}
+				avoid := map[*ssa.BasicBlock]bool{s.Block(): true}
+				for _, b := range deep.Blocks {
+					if _, isR := b.Instrs[len(b.Instrs)-1].(*ssa.Return); isR && b != deep.Recover && from != s.Block() && blockReaches(from, b, avoid) {
+						narrowed = c.InstrPos(g.If) + " and a further test after it"
+					}
+				}
+			}
 		}
 		pos := c.Pos(deep.Pos())
 		if realloc && narrowed != "" {
